@@ -82,6 +82,9 @@ func (w *World) newNode(id int, key *SecpKey) *Node {
 // start builds the application object on the node's disk (first start or restart after a crash).
 func (n *Node) start() {
 	simrt.SetEnv(n.Env)
+	// the engine client's start-up handshake runs outside any scheduled call
+	simrt.GuardEngineCalls(true)
+	defer simrt.StartingNode()()
 	cfg := n.W.Cfg
 	n.Pool = newPoolWrap(mempool.NewSenderNonceMempool(mempool.SenderNonceSeedOpt(int64(stream(n.W.Seed, "mempool", n.ID, n.Crashes)>>1)), mempool.SenderNonceMaxTxOpt(5000)))
 	opts := []func(*baseapp.BaseApp){baseapp.SetChainID(chainID), baseapp.SetMempool(n.Pool)}
@@ -154,6 +157,21 @@ type CallOutcome struct {
 }
 
 // run executes f as one scheduled call on this node.
+// checkForeignEngineCalls: C07 / C09. The execution layer is told about a block only by the ABCI
+// call that processes it. A request that reaches the engine client from any other goroutine (one a
+// dependency started behind the scheduler's back, such as an optimistic execution of the proposal,
+// or one that outlives the call that started it) makes the engine calls of a block depend on what
+// else happened at that height on that node - rounds that were never decided, timing - and tells
+// the engine heads that nobody finalised.
+func (w *World) checkForeignEngineCalls(when string) {
+	for _, fc := range simrt.ForeignEngineCalls() {
+		w.Stats.OracleEvals["C07"]++
+		w.Stats.OracleEvals["C09"]++
+		w.violate("C07", "engine-request-outside-abci-call", "foreign-goroutine", "after %s: the application sent an engine request %s", when, fc)
+		w.violate("C09", "engine-request-outside-abci-call", "foreign-goroutine", "after %s: the application sent an engine request %s", when, fc)
+	}
+}
+
 func (n *Node) run(kind string, f func()) CallOutcome {
 	n.Calls++
 	simrt.SetEnv(n.Env)
@@ -180,6 +198,7 @@ func (n *Node) run(kind string, f func()) CallOutcome {
 		out.Panic = out.Sched.Panic
 		out.Stack = out.Sched.PanicStack
 	}
+	n.W.checkForeignEngineCalls(fmt.Sprintf("%s on node %d", kind, n.ID))
 	n.W.tr("call", kind, fmt.Sprint(n.ID), out.Sched.Interleaving, fmt.Sprint(out.Panic != nil, out.Crashed, out.Sched.Deadlock))
 	n.W.Stats.Interleavings[kind+"/"+out.Sched.Interleaving]++
 	n.W.Stats.SchedDecisions += out.Sched.Decisions
